@@ -71,6 +71,8 @@ def asan_features(err):
     if m:
         fns = re.findall(r" in (\S+) ", m.group(1))
         feat["freed_by"] = "rfbClientConnectionGone" if "rfbClientConnectionGone" in fns else (fns[1] if len(fns) > 1 else "?")
+    elif "rfbClientConnectionGone" in err and feat["defect"] in ("heap-use-after-free", "SEGV", "attempting", "double-free"):
+        feat["freed_by"] = "rfbClientConnectionGone"
     return feat
 
 
@@ -212,24 +214,30 @@ def check(ctx):
                        {"defect": "cursor_burned"}, c, out)
     # TSan: lock-order-inversion / mutex misuse only (data races are outside this check)
     tsan_bad = []
+    # Reports are classified by ROOT CAUSE, not by the sanitizer's wording.  The known iterator window
+    # (C13-N2: a client record is torn down by rfbClientConnectionGone while an iterating thread still
+    # works on it) shows as heap-use-after-free, "use of an invalid mutex", "unlock of an unlocked mutex",
+    # "destroy of a locked mutex", ... depending on where the two threads are.
+    ITER_USERS = ("rfbClientIteratorNext", "rfbIncrClientRef", "rfbDecrClientRef", "rfbReleaseClientIterator",
+                  "rfbMarkRegionAsModified", "rfbMarkRectAsModified", "rfbSendBell", "rfbSendServerCutText",
+                  "rfbNewFramebuffer", "rfbSetCursor", "rfbScheduleCopyRegion", "rfbDoCopyRegion")
+    TEARDOWN_KINDS = ("heap-use-after-free", "use of an invalid mutex", "unlock of an unlocked mutex",
+                      "destroy of a locked mutex", "double lock", "read lock of a write locked mutex")
     for c, (rc, out, err) in zip(tsan_cases, tres):
-        reports = err.split("==================")
-        uaf_gone = [r for r in reports if "ThreadSanitizer: heap-use-after-free" in r and "rfbClientConnectionGone" in r]
-        for r in uaf_gone[:1]:
-            tsan_bad.append(("heap-use-after-free", {"defect": "heap-use-after-free", "freed_by": "rfbClientConnectionGone"}, c, r))
-        for r in reports:
+        for r in err.split("=================="):
             m = re.search(r"WARNING: ThreadSanitizer: ([^\n(]+)", r)
             if not m:
                 continue
             kind = m.group(1).strip()
             if kind.startswith("data race") or kind.startswith("signal"):
                 continue
-            if kind.startswith("heap-use-after-free") and "rfbClientConnectionGone" in r:
-                continue
-            if uaf_gone and ("invalid mutex" in kind or "unlock of an unlocked" in kind):
-                continue      # the mutex lives in the record that was freed under the iterator
             if kind.startswith("thread leak") and "rfbStartOnHoldClient" in r:
                 tsan_bad.append((kind, {"defect": "threads_not_reclaimed"}, c, r))   # ended client threads never joined
+                continue
+            if any(kind.startswith(tk) for tk in TEARDOWN_KINDS) and \
+               ("rfbClientConnectionGone" in r or any(u in r for u in ITER_USERS)):
+                tsan_bad.append(("iterator window: " + kind,
+                                 {"defect": "heap-use-after-free", "freed_by": "rfbClientConnectionGone"}, c, r))
                 continue
             tsan_bad.append((kind, {"defect": "tsan", "kind": kind.split()[0]}, c, r))
     seen_k = set()
